@@ -1,17 +1,12 @@
-import Lean.Data.Json
+import OhkamiModel.Drv.Common
 import OhkamiModel.P.SerdePrims
-open Lean Ohkami Ohkami.Serde
+import OhkamiModel.M.HttpObs
+/-! C08/C09 driver: the URL-encoded reader (`decode`) and writer (`encode`) models behind the JSON line protocol.
+(`partial` here only concerns the JSON (de)serialisation of type descriptors and values, not the model.) -/
+open Lean Ohkami Ohkami.Serde Drv
 open Ohkami.Serde.Concrete
 
-namespace SSlice
-def hexDigit (n : Nat) : Char := if n < 10 then Char.ofNat (48 + n) else Char.ofNat (87 + n)
-def toHex (bs : Bytes) : String := String.ofList (bs.flatMap fun b => [hexDigit (b.toNat / 16), hexDigit (b.toNat % 16)])
-def unhex1 (c : Char) : Nat := if c.isDigit then c.toNat - 48 else c.toNat - 87
-def fromHex (s : String) : Bytes :=
-  let rec go : List Char → Bytes
-    | a :: b :: rest => (unhex1 a * 16 + unhex1 b).toUInt8 :: go rest
-    | _ => []
-  go s.toList
+namespace DrvC09
 
 partial def tyOf (j : Json) : Except String Ty := do
   match j with
@@ -87,6 +82,9 @@ def runSer (j c : Json) : Except String Json := do
 
 def runCase (j : Json) : Except String Json := do
   let c ← j.getObjVal? "case"
+  if let .ok q := c.getObjVal? "query" then
+    let ps := Http.queryPairs (fromHex (← q.getStr?))
+    return Json.mkObj [("id", j.getObjValD "id"), ("model", Json.mkObj [("pairs", Json.arr (ps.map fun kv => Json.arr #[toHex kv.1, toHex kv.2]).toArray)])]
   if let .ok _ := c.getObjVal? "value" then return ← runSer j c
   let ty ← tyOf (← c.getObjVal? "ty")
   let input := fromHex (← (← c.getObjVal? "input").getStr?)
@@ -97,14 +95,4 @@ def runCase (j : Json) : Except String Json := do
     | .ub s => Json.mkObj [("outcome", "ub"), ("site", s)]
     | .unmodelled => Json.mkObj [("outcome", "unmodelled")]
   return Json.mkObj [("id", j.getObjValD "id"), ("model", out)]
-end SSlice
-
-partial def loop (h : IO.FS.Stream) : IO Unit := do
-  let line ← h.getLine
-  if line.isEmpty then return ()
-  match Json.parse line >>= SSlice.runCase with
-  | .ok j => IO.println j.compress
-  | .error e => IO.println (Json.mkObj [("error", e)]).compress
-  loop h
-
-def main : IO Unit := do loop (← IO.getStdin)
+end DrvC09
